@@ -120,8 +120,11 @@ class Report:
         if ent not in self.functions:
             self.functions.append(ent)
 
-    def candidate(self, signature, description, replay_text, kind="violation"):
-        self.candidates.append((signature, description, replay_text))
+    def candidate(self, signature, description, replay_text, kind="violation", history_text=None):
+        """history_text: a second replay script that first repeats (concretely) the jobs the finding worker process had
+        executed before -- tried only when the plain replay does not reproduce, for violations that need process-wide
+        state left behind by earlier operations (a cache keyed too coarsely, a memo on a base class, ...)"""
+        self.candidates.append((signature, description, replay_text, history_text))
 
     def harness_error(self, msg):
         self.harness_errors.append(msg)
@@ -150,7 +153,7 @@ class Report:
         n_known = 0
         seen = set()
         skipped = 0
-        for sig, desc, text in self.candidates:
+        for sig, desc, text, htext in self.candidates:
             if sig in seen:
                 continue
             if len(seen) >= self.max_replays:
@@ -165,6 +168,14 @@ class Report:
             if rc < 0 and rc != -9 and self.crash_reproduces:
                 rc = 1
                 desc += " [replay: the compiled accessor crashed with a signal]"
+            if rc != 1 and htext:
+                # not reproduced from a fresh process: repeat the operations that preceded it in the worker that found it
+                hpath = self._write_replay(sig + ":history", htext)
+                rc2, out2 = self._run_replay(hpath)
+                self.validated += 1
+                if rc2 == 1 and "VIOLATED" in out2:
+                    rc, out, path = 1, out2, hpath
+                    desc += " [manifests only after the operations that preceded it in the checking process (process-wide state of the library); the replay repeats them first]"
             if rc != 1:
                 self.harness_errors.append(
                     f"counterexample did not reproduce (replay exit {rc}): {sig} :: {desc} :: {out[-300:]}"
@@ -289,12 +300,32 @@ def cross_check(queries, errors, tlimit=20):
     return out
 
 
-def run_parallel(fn, configs, workers=None, deadline_s=None, fallback=None):
+_HIST = []  # per worker process: indices of the jobs it has executed so far
+
+
+class _HistFn:
+    def __init__(self, fn):
+        self.fn = fn
+
+    def __call__(self, ic):
+        i, c = ic
+        prior = list(_HIST)
+        _HIST.append(i)
+        return self.fn(c), prior
+
+
+def run_parallel(fn, configs, workers=None, deadline_s=None, fallback=None, histories=None):
     """map fn over configs in forked workers (each builds its own z3 state).  A worker that dies or hangs must
     not hang the check: results are collected with a deadline; a missing result is replaced by fallback(cfg)
     (an inconclusive result) or raises"""
     import multiprocessing as mp
 
+    if histories is not None:
+        # histories[k] := indices of the jobs the worker had executed before job k (for history-aware replays)
+        del _HIST[:]
+        res = run_parallel(_HistFn(fn), list(enumerate(configs)), workers, deadline_s, (lambda ic: (fallback(ic[1]), [])) if fallback else None)
+        histories[:] = [h for _, h in res]
+        return [r for r, _ in res]
     workers = workers or min(16, os.cpu_count() or 4)
     if len(configs) <= 1 or workers <= 1:
         return [fn(c) for c in configs]
